@@ -1,6 +1,6 @@
-(* C19 — Var-built terms and forgetting: structure of built terms, the Forget generator maps. The clause 'forget(build) evaluates to the expression' is decided by the correspondence check (see DESIGN.md).
+(* C19 — Var-built terms and forgetting: structure of built terms; forget is total, type preserving and IS the substitution of the Forget generator maps (uniform var edges become one merged node / nothing, everything else kept). The clause 'forget(build) evaluates to the expression' is decided by the correspondence check (see DESIGN.md).
    Property theorems only: each statement is spelled out and closed by [exact] of a lemma proved in Proofs/. *)
-From OHG Require Import Spec.Plain Proofs.C19Thm.
+From OHG Require Import Spec.Plain Proofs.C19Thm Proofs.C19bLemmas Proofs.C19bThm.
 
 Theorem C19_build_structure : forall (O A : Type) (var_label : A), C19_build_structure_full O A var_label.
 Proof. exact (@C19Thm.C19_build_structure). Qed.
@@ -85,6 +85,20 @@ Theorem C19_forget_operation_typed : forall (O A : Type) (var_label : A) (eqO : 
        lohg_target (forget_map_operation var_label eqO eqA a s t) = Ok t.
 Proof. exact (@C19Thm.C19_forget_operation_typed). Qed.
 
+Theorem C19_forget_image_cases : forall (O A : Type) (eqO : O -> O -> bool),
+       (forall x y : O, eqO x y = true <-> x = y) ->
+       forall eqA : A -> A -> bool,
+       (forall x y : A, eqA x y = true <-> x = y) ->
+       forall (var_label a : A) (s t : list O),
+       (forgettable var_label a s t ->
+        forget_image var_label eqO eqA a s t =
+        match s ++ t with
+        | [] => lohg_empty
+        | c :: _ => spider1 A c (length s) (length t)
+        end) /\
+       (~ forgettable var_label a s t -> forget_image var_label eqO eqA a s t = lohg_singleton a s t).
+Proof. exact (@C19bThm.C19_forget_image_cases). Qed.
+
 Theorem C19_forget_mono : forall (O0 A : Type) (var_label : A) (eqO : O0 -> O0 -> bool) (eqA : A -> A -> bool) 
          (a : A) (s t : list O0),
        (length s = 1 /\ length t = 1 ->
@@ -93,12 +107,148 @@ Theorem C19_forget_mono : forall (O0 A : Type) (var_label : A) (eqO : O0 -> O0 -
         forget_mono_map_operation var_label eqO eqA a s t = lohg_singleton a s t).
 Proof. exact (@C19Thm.C19_forget_mono). Qed.
 
-Theorem C19_forget_mono_typed : forall (O A : Type) (var_label : A) (eqO : O -> O -> bool) (eqA : A -> A -> bool),
+Theorem C19_forget_total_typed : forall B : Backend,
+       BackendOK B ->
+       forall (O A : Type) (eqO : O -> O -> bool),
        (forall x y : O, eqO x y = true <-> x = y) ->
-       forall (a : A) (s t : list O),
-       lohg_source (forget_mono_map_operation var_label eqO eqA a s t) = Ok s /\
-       lohg_target (forget_mono_map_operation var_label eqO eqA a s t) = Ok t.
-Proof. exact (@C19Thm.C19_forget_mono_typed). Qed.
+       forall (eqA : A -> A -> bool) (var_label : A) (f : lohg O A),
+       C09Thm.lwf f ->
+       C10Lemmas.ladj_ok f ->
+       C09Thm.labels_consistent f ->
+       exists (sf : ohg O A) (a b : list O) (g : lohg O A),
+         lohg_to_strict B eqO f = Ok sf /\
+         wf_ohg sf /\
+         lohg_source f = Ok a /\
+         lohg_target f = Ok b /\
+         ohg_source sf = Ok a /\
+         ohg_target sf = Ok b /\
+         forget var_label eqO eqA B f = Ok g /\
+         C09Thm.lwf g /\
+         C10Lemmas.ladj_ok g /\
+         pending g = [] /\ l_q (lo_h g) = ([], []) /\ lohg_source g = Ok a /\ lohg_target g = Ok b.
+Proof. exact (@C19bThm.C19_forget_total_typed). Qed.
+
+Theorem C19_forget_monogamous_total_typed : forall B : Backend,
+       BackendOK B ->
+       forall (O A : Type) (eqO : O -> O -> bool),
+       (forall x y : O, eqO x y = true <-> x = y) ->
+       forall (eqA : A -> A -> bool) (var_label : A) (f : lohg O A),
+       C09Thm.lwf f ->
+       C10Lemmas.ladj_ok f ->
+       C09Thm.labels_consistent f ->
+       exists (sf : ohg O A) (a b : list O) (g : lohg O A),
+         lohg_to_strict B eqO f = Ok sf /\
+         wf_ohg sf /\
+         lohg_source f = Ok a /\
+         lohg_target f = Ok b /\
+         ohg_source sf = Ok a /\
+         ohg_target sf = Ok b /\
+         forget_monogamous var_label eqO eqA B f = Ok g /\
+         C09Thm.lwf g /\
+         C10Lemmas.ladj_ok g /\
+         pending g = [] /\ l_q (lo_h g) = ([], []) /\ lohg_source g = Ok a /\ lohg_target g = Ok b.
+Proof. exact (@C19bThm.C19_forget_monogamous_total_typed). Qed.
+
+Theorem C19_forget_subst : forall B : Backend,
+       BackendOK B ->
+       forall (O A : Type) (eqO : O -> O -> bool),
+       (forall x y : O, eqO x y = true <-> x = y) ->
+       forall (eqA : A -> A -> bool) (var_label : A) (f : lohg O A),
+       C09Thm.lwf f ->
+       C10Lemmas.ladj_ok f ->
+       C09Thm.labels_consistent f ->
+       exists (sf fx h : ohg O A) (g : lohg O A),
+         lohg_to_strict B eqO f = Ok sf /\
+         wf_ohg sf /\
+         ic_elements (semi_vops O) (h_w (o_h sf)) = Ok (forget_fw (h_w (o_h sf))) /\
+         (forall l : list nat,
+          all_lt (length (h_w (o_h sf))) l -> C12Lemmas.expand (forget_fw (h_w (o_h sf))) l = l) /\
+         lax_good (forget_batch eqO eqA var_label sf) /\
+         l_q (lo_h (forget_batch eqO eqA var_label sf)) = ([], []) /\
+         lohg_to_strict B eqO (forget_batch eqO eqA var_label sf) = Ok fx /\
+         wf_ohg fx /\
+         define_map_arrow B eqO (dyn_functor (forget_functor var_label eqO eqA) B eqO) sf = Ok h /\
+         wf_ohg h /\
+         C12Thm.IsSubst sf (forget_fw (h_w (o_h sf))) fx (abs h) /\
+         forget var_label eqO eqA B f = Ok g /\ lohg_from_strict h = Ok g /\ labs g = abs h.
+Proof. exact (@C19bThm.C19_forget_subst). Qed.
+
+Theorem C19_forget_monogamous_subst : forall B : Backend,
+       BackendOK B ->
+       forall (O A : Type) (eqO : O -> O -> bool),
+       (forall x y : O, eqO x y = true <-> x = y) ->
+       forall (eqA : A -> A -> bool) (var_label : A) (f : lohg O A),
+       C09Thm.lwf f ->
+       C10Lemmas.ladj_ok f ->
+       C09Thm.labels_consistent f ->
+       exists (sf fx h : ohg O A) (g : lohg O A),
+         lohg_to_strict B eqO f = Ok sf /\
+         wf_ohg sf /\
+         ic_elements (semi_vops O) (h_w (o_h sf)) = Ok (forget_fw (h_w (o_h sf))) /\
+         (forall l : list nat,
+          all_lt (length (h_w (o_h sf))) l -> C12Lemmas.expand (forget_fw (h_w (o_h sf))) l = l) /\
+         lax_good (forget_mono_batch eqO eqA var_label sf) /\
+         l_q (lo_h (forget_mono_batch eqO eqA var_label sf)) = ([], []) /\
+         lohg_to_strict B eqO (forget_mono_batch eqO eqA var_label sf) = Ok fx /\
+         wf_ohg fx /\
+         define_map_arrow B eqO (dyn_functor (forget_mono_functor var_label eqO eqA) B eqO) sf = Ok h /\
+         wf_ohg h /\
+         C12Thm.IsSubst sf (forget_fw (h_w (o_h sf))) fx (abs h) /\
+         forget_monogamous var_label eqO eqA B f = Ok g /\ lohg_from_strict h = Ok g /\ labs g = abs h.
+Proof. exact (@C19bThm.C19_forget_monogamous_subst). Qed.
+
+Theorem C19_dyn_total_typed : forall B : Backend,
+       BackendOK B ->
+       forall (O1 A1 O2 A2 : Type) (eqO1 : O1 -> O1 -> bool),
+       (forall x y : O1, eqO1 x y = true <-> x = y) ->
+       forall eqO2 : O2 -> O2 -> bool,
+       (forall x y : O2, eqO2 x y = true <-> x = y) ->
+       forall F : lfunctor O1 A1 O2 A2,
+       lf_contract F ->
+       forall f : lohg O1 A1,
+       C09Thm.lwf f ->
+       C10Lemmas.ladj_ok f ->
+       C09Thm.labels_consistent f ->
+       exists (sf : ohg O1 A1) (a b : list O1) (g : lohg O2 A2),
+         lohg_to_strict B eqO1 f = Ok sf /\
+         wf_ohg sf /\
+         lohg_source f = Ok a /\
+         lohg_target f = Ok b /\
+         ohg_source sf = Ok a /\
+         ohg_target sf = Ok b /\
+         dyn_define_map_arrow F B eqO1 eqO2 f = Ok g /\
+         C09Thm.lwf g /\
+         C10Lemmas.ladj_ok g /\
+         pending g = [] /\
+         l_q (lo_h g) = ([], []) /\
+         lohg_source g = Ok (flat_map (lf_map_object F) a) /\
+         lohg_target g = Ok (flat_map (lf_map_object F) b).
+Proof. exact (@C19bLemmas.dyn_total_typed). Qed.
+
+Theorem C19_dyn_substitution : forall B : Backend,
+       BackendOK B ->
+       forall (O1 A1 O2 A2 : Type) (eqO1 : O1 -> O1 -> bool),
+       (forall x y : O1, eqO1 x y = true <-> x = y) ->
+       forall eqO2 : O2 -> O2 -> bool,
+       (forall x y : O2, eqO2 x y = true <-> x = y) ->
+       forall F : lfunctor O1 A1 O2 A2,
+       lf_contract F ->
+       forall f : lohg O1 A1,
+       C09Thm.lwf f ->
+       C10Lemmas.ladj_ok f ->
+       C09Thm.labels_consistent f ->
+       exists (sf : ohg O1 A1) (fx h : ohg O2 A2) (g : lohg O2 A2),
+         lohg_to_strict B eqO1 f = Ok sf /\
+         wf_ohg sf /\
+         dyn_map_object F (h_w (o_h sf)) = Ok (dyn_fw F (h_w (o_h sf))) /\
+         decode_s (dyn_fw F (h_w (o_h sf))) = map (lf_map_object F) (h_w (o_h sf)) /\
+         lohg_to_strict B eqO2 (dyn_batch F (edge_gens sf)) = Ok fx /\
+         wf_ohg fx /\
+         define_map_arrow B eqO2 (dyn_functor F B eqO2) sf = Ok h /\
+         wf_ohg h /\
+         C12Thm.IsSubst sf (dyn_fw F (h_w (o_h sf))) fx (abs h) /\
+         dyn_define_map_arrow F B eqO1 eqO2 f = Ok g /\ lohg_from_strict h = Ok g /\ labs g = abs h.
+Proof. exact (@C19bLemmas.dyn_substitution). Qed.
 
 Print Assumptions C19_build_structure.
 Print Assumptions C19_build_nodes.
@@ -107,5 +257,11 @@ Print Assumptions C19_build_typed.
 Print Assumptions C19_all_equal.
 Print Assumptions C19_forget_operation.
 Print Assumptions C19_forget_operation_typed.
+Print Assumptions C19_forget_image_cases.
 Print Assumptions C19_forget_mono.
-Print Assumptions C19_forget_mono_typed.
+Print Assumptions C19_forget_total_typed.
+Print Assumptions C19_forget_monogamous_total_typed.
+Print Assumptions C19_forget_subst.
+Print Assumptions C19_forget_monogamous_subst.
+Print Assumptions C19_dyn_total_typed.
+Print Assumptions C19_dyn_substitution.
